@@ -99,7 +99,7 @@ def fanout(ctx):
     cases = r.records.get("CASE", [])
     if len(world) != 1 or not cases:
         raise Infra("ScannerFanout exported no WORLD record / no cover")
-    r = ctx.tlc("client", "ScannerFanoutMC", "ScannerFanoutSim.cfg", simulate=ctx.pick(1000, 12000), depth=3, count=False,
+    r = ctx.tlc("client", "ScannerFanoutMC", "ScannerFanoutSim.cfg", simulate=ctx.pick(1500, 15000), depth=3, count=False,
                 timeout=3000)
     cases += r.records.get("CASE", [])
     # vacuity: every split class must be exercised for every number of matcher workers >= 2 by a case that owes callbacks
